@@ -121,7 +121,12 @@ impl Envelope {
         if !target.is_subset(&reveal_set) {
             return None;
         }
-        Some(self.elide_revealing_set(&reveal_set).elide_removing_set(target))
+        // A target that lies on the path from the root to another target must
+        // stay revealed, otherwise the inner target would not occur in the proof
+        // and the proof would not be confirmed for the targets it was made for.
+        let on_path = self.ancestors_of_targets(target);
+        let elide_set: HashSet<Digest> = target.difference(&on_path).cloned().collect();
+        Some(self.elide_revealing_set(&reveal_set).elide_removing_set(&elide_set))
     }
 
     /// Creates a proof that this envelope includes the single target element.
@@ -264,6 +269,37 @@ impl Envelope {
     /// Checks if this envelope contains all elements in the target set.
     ///
     /// Used during proof verification to confirm all target elements exist in the proof.
+    /// The digests of all elements that properly contain a target element.
+    fn ancestors_of_targets(&self, target: &HashSet<Digest>) -> HashSet<Digest> {
+        let mut result = HashSet::new();
+        self.collect_ancestors_of_targets(target, &HashSet::new(), &mut result);
+        result
+    }
+
+    fn collect_ancestors_of_targets(&self, target: &HashSet<Digest>, ancestors: &HashSet<Digest>, result: &mut HashSet<Digest>) {
+        if target.contains(&self.digest()) {
+            result.extend(ancestors.iter().cloned());
+        }
+        let mut ancestors = ancestors.clone();
+        ancestors.insert(self.digest().into_owned());
+        match self.case() {
+            EnvelopeCase::Node { subject, assertions, .. } => {
+                subject.collect_ancestors_of_targets(target, &ancestors, result);
+                for assertion in assertions {
+                    assertion.collect_ancestors_of_targets(target, &ancestors, result);
+                }
+            }
+            EnvelopeCase::Wrapped { envelope, .. } => {
+                envelope.collect_ancestors_of_targets(target, &ancestors, result);
+            }
+            EnvelopeCase::Assertion(assertion) => {
+                assertion.predicate().collect_ancestors_of_targets(target, &ancestors, result);
+                assertion.object().collect_ancestors_of_targets(target, &ancestors, result);
+            }
+            _ => {}
+        }
+    }
+
     fn contains_all(&self, target: &HashSet<Digest>) -> bool {
         let mut target = target.clone();
         self.remove_all_found(&mut target);
